@@ -38,6 +38,24 @@ func coqPlatP(p platform.Platform) string {
 }
 func coqPlat(p Plat) string { return coqPlatP(p.P()) }
 
+// baselineRule: a requested platform that names no variant stands for the baseline (level 1) of its architecture: it can run
+// exactly what the same platform spelled with variant "v1" can run
+func baselineRule(h, t Plat) string {
+	if h.Variant != "" || h.Arch == "" {
+		return ""
+	}
+	switch h.Arch { // architectures whose missing variant is normalised to something else than level 1 (arm -> v7, arm64 -> v8 = none, amd64 v1 = none)
+	case "arm", "armhf", "armel", "arm64", "aarch64", "amd64", "x86_64", "x86-64":
+		return ""
+	}
+	h1 := h
+	h1.Variant = "v1"
+	if got, want := platform.Compatible(h.P(), t.P()), platform.Compatible(h1.P(), t.P()); got != want {
+		return fmt.Sprintf("host %v can run entry %v: %v, but the same host spelled with variant v1: %v", h, t, got, want)
+	}
+	return ""
+}
+
 // vmRule: Windows and macOS hosts run Linux images in a VM, so whether such a host can run a linux entry is what a
 // linux host of the same architecture and variant could run - the OS versions of either side play no part.  Returns a
 // description when the implementation's Compatible breaks that relation.
@@ -134,6 +152,9 @@ func runCaseRaw(c Case, res *lib.Result) string {
 			if msg := vmRule(c.Host, e); msg != "" {
 				res.Fail("linux-entry-runnable-depends-on-host-os", msg, c)
 			}
+			if msg := baselineRule(c.Host, e); msg != "" {
+				res.Fail("no-variant-is-not-the-baseline", msg, c)
+			}
 			if platform.Match(hp, e.P()) {
 				anyMatch = true
 			}
@@ -205,6 +226,9 @@ func runCaseRaw(c Case, res *lib.Result) string {
 		}
 		if msg := vmRule(c.Host, c.T); msg != "" {
 			res.Fail("linux-entry-runnable-depends-on-host-os", msg, c)
+		}
+		if msg := baselineRule(c.Host, c.T); msg != "" {
+			res.Fail("no-variant-is-not-the-baseline", msg, c)
 		}
 		if om && !oc {
 			res.Fail("match-not-compatible", fmt.Sprintf("host %v matches %v but is not compatible", c.Host, c.T), c)
